@@ -408,6 +408,29 @@ def r6(fx):
                 whiles.append((m, q, n))
     if not whiles:
         yield ob('no while-loop in the package', True, fx.forest.mod('encoder'), where='package', got='none', want='every while-loop advances')
+    # functions that only module-level statements refer to run at import time with constant arguments: the evaluation of the
+    # module constants (bounded interpretation) runs them to completion or reports the constant as not foldable
+    used_in_functions = set()
+    for m2, q2, fn2 in fx.forest.functions():
+        for n in src.walk_local(fn2):
+            if isinstance(n, ast.Name) and isinstance(n.ctx, ast.Load):
+                used_in_functions.add(n.id)
+            elif isinstance(n, ast.Attribute):
+                used_in_functions.add(n.attr)
+    for m, q, w in list(whiles):
+        top = q.split('.')[0]
+        if '.' not in q and top.startswith('_') and top not in used_in_functions:
+            try:
+                ns = ev.module_consts(fx.forest, m)
+                users = [st for st in fx.forest.mod(m).body if not isinstance(st, (ast.FunctionDef, ast.ClassDef))
+                         and any(isinstance(n, ast.Name) and n.id == top for n in ast.walk(st))]
+                folded = bool(users) and all(isinstance(st, ast.Assign) and all(isinstance(t, ast.Name) and ns.has(t.id) for t in st.targets) for st in users)
+            except Unknown:
+                folded = False
+            if folded:
+                whiles.remove((m, q, w))
+                yield ob(f'while-loop in {m}.{q} makes progress on every iteration', True, w, got='only called while the module constants are computed: evaluated to completion there',
+                         want='a variable moves monotonically towards the bound tested by the loop condition')
     for m, q, w in whiles:
         yield ob(f'while-loop in {m}.{q} makes progress on every iteration', _progress(w) is not None, w, got=_progress(w) or f'no progress argument found for `while {ast.unparse(w.test)[:60]}`',
                  want='a variable moves monotonically towards the bound tested by the loop condition')
@@ -502,6 +525,22 @@ def _progress(w):
                     if set(a) <= {iv, ''} and a.get(iv) == 1 and a.get('', 0) >= 1 and not continue_before(k2) and len(stores_of(sv)) == 1 and len(stores_of(iv)) == 1 \
                             and not ({n.id for n in ast.walk(bb['s']) if isinstance(n, ast.Name)} & written):
                         return f'{iv} = find(..., {sv}), leaves at -1, {sv} = {iv} + {a[""]} on every other iteration'
+        return None
+    # (e) the search loop written with an assignment expression: `while (i := seq.find(p, s)) != -1: ...; s = i + k` (k >= 1)
+    if isinstance(w.test, ast.Compare) and len(w.test.ops) == 1 and isinstance(w.test.ops[0], ast.NotEq) and isinstance(w.test.left, ast.NamedExpr) \
+            and isinstance(w.test.comparators[0], (ast.Constant, ast.UnaryOp)) and ast.unparse(w.test.comparators[0]) == '-1':
+        bb = pat.match(w.test.left.value, 'H_s.find(H_p, H_o)')
+        if bb is not None and isinstance(bb['o'], ast.Name):
+            iv, sv = w.test.left.target.id, bb['o'].id
+            for k2, s2 in enumerate(body):
+                if isinstance(s2, ast.Assign) and len(s2.targets) == 1 and isinstance(s2.targets[0], ast.Name) and s2.targets[0].id == sv:
+                    try:
+                        a = nf.affine(s2.value)
+                    except Unknown:
+                        continue
+                    if set(a) <= {iv, ''} and a.get(iv) == 1 and a.get('', 0) >= 1 and not continue_before(k2) and len(stores_of(sv)) == 1 and not stores_of(iv) \
+                            and not ({n.id for n in ast.walk(bb['s']) if isinstance(n, ast.Name)} & written):
+                        return f'{iv} := find(..., {sv}) in the condition, {sv} = {iv} + {a[""]} on every iteration'
         return None
     conj = w.test.values if isinstance(w.test, ast.BoolOp) and isinstance(w.test.op, ast.And) else [w.test]
     for c in conj:
